@@ -323,6 +323,29 @@ def run_ext(run):
                         else:
                             run.oracle_fail("copy_existing(view of a file)", case, f"{api} of {index_name} of a memory-mapped tensordict: {res}", "copy_existing:view")
                         shutil.rmtree(dest, ignore_errors=True)
+                # the view saved into the directory of its parent (every leaf is asked to be saved on the file it is a view of): refused
+                # (loudly; a refused save may leave the directory half written, like any failed save), or accepted and then faithful
+                if index_name not in ("rows [2, 0]",):
+                    run.case(("view-onto-parent", it, index_name))
+                    try:
+                        with time_limit(120):
+                            try:
+                                view.memmap(d, num_threads=rng.choice([0, 2]))
+                                outcome = "accepted"
+                            except RuntimeError:
+                                outcome = "refused"
+                            now = canon(TensorDict.load_memmap(d), **OPTS) if outcome == "accepted" else None
+                        good = outcome == "refused" or now == expected
+                        res = None if good else f"{outcome}; the directory now loads as {str(now)[:200]}"
+                    except TimeoutError as e:
+                        raise Infra(f"memmap timed out: {e}")
+                    except Exception as e:  # noqa: BLE001
+                        res = f"raised {type(e).__name__}: {str(e)[:150]}"
+                    if res is None:
+                        run.oracle_ok("view_saved_onto_its_parent")
+                    else:
+                        run.oracle_fail("view_saved_onto_its_parent", {"index": index_name, "rows": n},
+                                        f"{index_name} of a memory-mapped tensordict saved into the directory of that tensordict: {res}", "view-onto-parent")
                 shutil.rmtree(d, ignore_errors=True)
             # ---- two mappings of one directory: entries created with make_memmap* through one mapping (this process, a forked or a
             #      spawned one), at the root or inside a nested node the reader has already mapped; after memmap_refresh_() /
